@@ -11,6 +11,11 @@ import (
 // ErrCustom is the "custom error" fault kind.
 var ErrCustom = errors.New("verif: injected source failure")
 
+// DeviceFault is an error of its own concrete type (like *fs.PathError from a failing device node).
+type DeviceFault struct{ Code int }
+
+func (e *DeviceFault) Error() string { return "verif: injected device fault" }
+
 // Fault kinds.
 const (
 	FaultEOF        = "eof"
@@ -18,10 +23,11 @@ const (
 	FaultCustom     = "custom"
 	FaultPartial    = "error_with_partial_data"
 	FaultTransient  = "transient_custom"
+	FaultTypedEOF   = "typed_error_then_eof" // first failing Read returns a *DeviceFault, every later Read returns io.EOF
 )
 
 // FaultKinds lists all injectable failure kinds.
-var FaultKinds = []string{FaultEOF, FaultUnexpected, FaultCustom, FaultPartial, FaultTransient}
+var FaultKinds = []string{FaultEOF, FaultUnexpected, FaultCustom, FaultPartial, FaultTransient, FaultTypedEOF}
 
 // Reader is a concurrency-safe stream over a fixed byte slice with a chunk
 // plan (how many bytes each Read may return), an optional fault offset and an
@@ -54,6 +60,11 @@ func (r *Reader) failure() error {
 		return io.EOF
 	case FaultUnexpected:
 		return io.ErrUnexpectedEOF
+	case FaultTypedEOF:
+		if r.Faulted == 0 {
+			return &DeviceFault{Code: 5}
+		}
+		return io.EOF
 	default:
 		return ErrCustom
 	}
